@@ -501,6 +501,30 @@ func checkC08(c *Ctx) *core.Result {
 						r.OK("V6", core.QualName(fn), expr, p.Pos(st.Pos()), "constant \"X\"")
 						continue
 					}
+					// string(buf[:n]) of a local byte array that only ever receives token classes
+					if sl, ok := v.X.(*ssa.Slice); ok {
+						if al, ok := sl.X.(*ssa.Alloc); ok && al.Referrers() != nil {
+							good, n := true, 0
+							for _, ref := range *al.Referrers() {
+								ia, ok := ref.(*ssa.IndexAddr)
+								if !ok || ia.Referrers() == nil {
+									continue
+								}
+								for _, r2 := range *ia.Referrers() {
+									if w, ok := r2.(*ssa.Store); ok && w.Addr == ssa.Value(ia) {
+										n++
+										if !a.loadsField(w.Val, "sql.token.category") {
+											good = false
+										}
+									}
+								}
+							}
+							if good && n > 0 {
+								r.OK("V6", core.QualName(fn), expr, p.Pos(st.Pos()), "built from a local byte array that only receives token classes")
+								continue
+							}
+						}
+					}
 				case *ssa.Const:
 					if s, ok := ssax.ConstString(v); ok && (s == "" || s == string(rune(evil))) {
 						r.OK("V6", core.QualName(fn), expr, p.Pos(st.Pos()), "constant")
